@@ -71,6 +71,9 @@ ValidField(d, f) == /\ f.ranges # <<>>
                     /\ InBounds(d, f)
 Valid(d) == \A j \in 1..Len(d.fields) : ValidField(d, d.fields[j])
 
+(* C06/C11: a declared default is a value of the base type: it has no bit at or above the declared width *)
+DefaultFits(d) == d.def = <<>> \/ SeqToSet(d.def[1]) \subseteq 0..(d.n - 1)
+
 (* The statement leaves two corners open, and the verdict is three-valued so  *)
 (* that the check never demands more than C09 states:                        *)
 (*  - an array of NON-contiguous elements whose explicit stride is smaller    *)
